@@ -1272,3 +1272,569 @@ Proof.
   intros Hx Ho. rewrite (vstep_algebra_id o _ Ho). apply view_x_regs.
   apply (algebra_ops_keep_registers debug sc o x Hx Ho).
 Qed.
+
+(* ################################################################## *)
+(* ROUND 2 (second audit)                                              *)
+(* ################################################################## *)
+Require Import Proofs.FmtSerde.
+
+Section Round2.
+Context {K Q T : Type} (E : env K unit Q T) (debug : bool).
+Context (ck : K -> N) (cq : Q -> N) (HL : Lawful E ck cq).
+Notation M := (M K unit T). Notation world := (world K unit T). Notation smap := (map K unit). Notation kv := (K * unit)%type.
+
+(* ================================================================== *)
+(* C08.2  the model's folds and the generic loops: EQUATIONS, for      *)
+(* every environment (no Lawful) and every world.                      *)
+(* ================================================================== *)
+
+(* the generic loop at F = "push (g slot)" computes the model's push-slot
+   fold and maps g over its result *)
+Lemma filter_fold_gen_push_map {X} (g : nat -> X) (a b : smap) want n :
+  forall lo (acc : list X) (l0 : list nat) (w : world),
+    filter_fold_gen E (fun x i => x ++ [g i]) a b want n lo (acc ++ List.map g l0) w =
+    match filter_fold E a b want n lo l0 w with
+    | Ok l w' => Ok (acc ++ List.map g l) w'
+    | Panic w' => Panic w'
+    | UB => UB
+    end.
+Proof.
+  induction n as [|n IH]; intros lo acc l0 w; cbn [filter_fold filter_fold_gen]; [reflexivity|].
+  destruct (nth_error (slots a) lo) as [[[k u]|]|]; try reflexivity.
+  unfold bind. destruct (contains_in E b k w) as [inb w'|w'|]; try reflexivity.
+  destruct (Bool.eqb inb want); [|apply IH].
+  rewrite <- app_assoc. change [g lo] with (List.map g [lo]). rewrite <- map_app. apply IH.
+Qed.
+
+Theorem union_fold_eq_gen (a b : smap) (u : chain) (w : world) :
+  union_fold E a b u w = union_fold_gen E (fun x it => x ++ [it]) a b u [] w.
+Proof.
+  unfold union_fold, union_fold_gen, diff_fold, bind.
+  assert (Hback : forall acc (w1 : world),
+            match filter_fold E a b false (cursor_len (back u)) (fst (back u)) [] w1 with
+            | Ok l w' => ret (acc ++ List.map (fun i => (false, i)) l) w'
+            | Panic w' => Panic w'
+            | UB => UB
+            end
+            = filter_fold_gen E (fun x i => x ++ [(false, i)]) a b false
+                              (cursor_len (back u)) (fst (back u)) acc w1).
+  { intros acc w1.
+    pose proof (filter_fold_gen_push_map (fun i => (false, i)) a b false (cursor_len (back u))
+                  (fst (back u)) acc [] w1) as H.
+    cbn [List.map] in H. rewrite app_nil_r in H. rewrite H.
+    destruct (filter_fold E a b false (cursor_len (back u)) (fst (back u)) [] w1); reflexivity. }
+  destruct (front u) as [c|].
+  - rewrite siter_fold_is_gen.
+    destruct (siter_fold_gen (fun x i => x ++ [(true, i)]) b (cursor_len c) (fst c) [] w) as [acc w1|w1|];
+      try reflexivity.
+    apply Hback.
+  - unfold ret at 1 3. apply Hback.
+Qed.
+
+Theorem symdiff_fold_eq_gen (a b : smap) (u : chain) (w : world) :
+  symdiff_fold E a b u w = symdiff_fold_gen E (fun x it => x ++ [it]) a b u [] w.
+Proof.
+  unfold symdiff_fold, symdiff_fold_gen, diff_fold, bind.
+  assert (Hback : forall l1 (w1 : world),
+            match filter_fold E b a false (cursor_len (back u)) (fst (back u)) [] w1 with
+            | Ok l2 w' => ret (List.map (fun i => (false, i)) l1 ++ List.map (fun i => (true, i)) l2) w'
+            | Panic w' => Panic w'
+            | UB => UB
+            end
+            = filter_fold_gen E (fun x i => x ++ [(true, i)]) b a false
+                              (cursor_len (back u)) (fst (back u)) (List.map (fun i => (false, i)) l1) w1).
+  { intros l1 w1.
+    pose proof (filter_fold_gen_push_map (fun i => (true, i)) b a false (cursor_len (back u))
+                  (fst (back u)) (List.map (fun i => (false, i)) l1) [] w1) as H.
+    cbn [List.map] in H. rewrite app_nil_r in H. rewrite H.
+    destruct (filter_fold E b a false (cursor_len (back u)) (fst (back u)) [] w1); reflexivity. }
+  destruct (front u) as [c|].
+  - pose proof (filter_fold_gen_push_map (fun i => (false, i)) a b false (cursor_len c) (fst c) [] [] w) as H.
+    cbn [List.map app] in H. rewrite H.
+    destruct (filter_fold E a b false (cursor_len c) (fst c) [] w) as [l1 w1|w1|]; try reflexivity.
+    apply Hback.
+  - unfold ret at 1 3. apply (Hback [] w).
+Qed.
+
+(* ================================================================== *)
+(* C07.5  a FORGOTTEN Drain (mem::forget): drain(), take n items, never *)
+(* drop the Drain.  sop3 = sop2 + that operation.                       *)
+(* ================================================================== *)
+Notation sop2 := (@sop2 K Q). Notation sres2 := (@sres2 K). Notation fset := (@fset K).
+
+Inductive sop3 :=
+| S3Base (o : sop2)
+| S3DrainForget (take : nat).
+
+Definition sstep3 (o : sop3) : M sres2 :=
+  match o with
+  | S3Base o => sstep2 E debug o
+  | S3DrainForget take =>
+      c <- drain ;; x <- drain_run take c ;; ret (R2Drained (List.map fst (fst x)))
+  end.
+
+Definition fnext3 (n : nat) (o : sop3) (s : fset) : fset :=
+  match o with S3Base o => fnext2 ck cq n o s | S3DrainForget _ => [] end.
+
+Definition fstep3 (n : nat) (o : sop3) (s : fset) (r : sres2) : Prop :=
+  match o with
+  | S3Base o => fstep2 ck cq n o s r
+  | S3DrainForget take => exists p, Permutation p s /\ r = R2Drained (firstn take p)
+  end.
+
+(* the set is the empty set at once, the items taken are the first [take] of
+   the elements in some order, and NOTHING is destroyed: the log is unchanged
+   (the items not taken are leaked, as mem::forget does) *)
+Lemma sstep3_forget n take w s :
+  SAbs ck (self w) s -> cap (self w) = n ->
+  wp (sstep3 (S3DrainForget take))
+     (fun r w' => fstep3 n (S3DrainForget take) s r /\ SAbs ck (self w') [] /\ cap (self w') = n /\
+                  log w' = log w)
+     (fun _ => False) w.
+Proof.
+  intros (Hw & Hu & Hp) Hc. cbn [sstep3].
+  apply (wp_bind_assoc drain (fun c => drain_run take c)
+           (fun x => ret (R2Drained (List.map fst (fst x))))).
+  apply wp_bind.
+  eapply wp_mono; [apply drain_run_strong; exact Hw | | intros ? []]; cbn beta.
+  intros x w1 (Hr & _ & HD & _ & Hcap & Hlog & Hlen). apply wp_ret.
+  split; [|split; [|split; [congruence | exact Hlog]]].
+  - cbn [fstep3]. exists (List.map fst (elems (self w))). split; [exact Hp|].
+    rewrite Hr, firstn_map. reflexivity.
+  - split; [eapply DrainInv_WF; exact HD|]. unfold elems. rewrite Hlen. cbn [take_live List.map].
+    split; [apply NoDup_nil | apply perm_nil].
+Qed.
+
+Theorem sstep3_refines n o w s :
+  SAbs ck (self w) s -> cap (self w) = n ->
+  match sstep3 o w with
+  | Ok r w' => fstep3 n o s r /\ SAbs ck (self w') (fnext3 n o s) /\ cap (self w') = n
+  | Panic w' => fstep3 n o s (R2Base SPanic) /\ SAbs ck (self w') (fnext3 n o s) /\ cap (self w') = n
+  | UB => False
+  end.
+Proof.
+  intros Ha Hc. destruct o as [o|take].
+  - exact (sstep2_refines E debug ck cq HL n o w s Ha Hc).
+  - pose proof (sstep3_forget n take w s Ha Hc) as Hd. unfold wp in Hd. cbn [fnext3].
+    destruct (sstep3 (S3DrainForget take) w) as [r w'|w'|]; [|destruct Hd|exact Hd].
+    destruct Hd as (H1 & H2 & H3 & _). auto.
+Qed.
+
+Fixpoint smrun3 (ops : list sop3) (w : world) : list sres2 :=
+  match ops with
+  | [] => []
+  | o :: t => match sstep3 o w with
+              | Ok r w' => r :: smrun3 t w'
+              | Panic w' => R2Base SPanic :: smrun3 t w'
+              | UB => []
+              end
+  end.
+
+Fixpoint smfinal3 (ops : list sop3) (w : world) : option world :=
+  match ops with
+  | [] => Some w
+  | o :: t => match sstep3 o w with
+              | Ok _ w' => smfinal3 t w'
+              | Panic w' => smfinal3 t w'
+              | UB => None
+              end
+  end.
+
+Fixpoint fsfinal3 (n : nat) (ops : list sop3) (s : fset) : fset :=
+  match ops with
+  | [] => s
+  | o :: t => fsfinal3 n t (fnext3 n o s)
+  end.
+
+Inductive fsruns3 (n : nat) : list sop3 -> fset -> list sres2 -> Prop :=
+| fsruns3_nil s : fsruns3 n [] s []
+| fsruns3_cons o ops s r rs :
+    fstep3 n o s r -> fsruns3 n ops (fnext3 n o s) rs -> fsruns3 n (o :: ops) s (r :: rs).
+
+Theorem srun3_refines n ops w s :
+  SAbs ck (self w) s -> cap (self w) = n ->
+  exists wf, smfinal3 ops w = Some wf /\ fsruns3 n ops s (smrun3 ops w) /\
+             SAbs ck (self wf) (fsfinal3 n ops s) /\ cap (self wf) = n.
+Proof.
+  revert w s; induction ops as [|o t IH]; intros w s Ha Hc.
+  - exists w. split; [reflexivity|]. split; [apply fsruns3_nil|]. split; assumption.
+  - cbn [smrun3 smfinal3 fsfinal3]. pose proof (sstep3_refines n o w s Ha Hc) as Hs.
+    destruct (sstep3 o w) as [r w'|w'|]; [| |destruct Hs].
+    + destruct Hs as (Hst & Ha' & Hc').
+      destruct (IH w' _ Ha' Hc') as (wf & Hf & Hr & Haf & Hcf).
+      exists wf. split; [exact Hf|]. split; [|split; assumption].
+      apply fsruns3_cons; assumption.
+    + destruct Hs as (Hst & Ha' & Hc').
+      destruct (IH w' _ Ha' Hc') as (wf & Hf & Hr & Haf & Hcf).
+      exists wf. split; [exact Hf|]. split; [|split; assumption].
+      apply fsruns3_cons; assumption.
+Qed.
+
+Theorem srun3_refines_new n ops t lg :
+  let w0 := {| cb := t; log := lg; self := new_map n |} in
+  exists wf, smfinal3 ops w0 = Some wf /\ fsruns3 n ops [] (smrun3 ops w0) /\
+             SAbs ck (self wf) (fsfinal3 n ops []) /\ cap (self wf) = n.
+Proof. intros w0. apply srun3_refines; cbn [w0 self]; [apply SAbs_new | apply cap_new]. Qed.
+
+(* membership: a forgotten drain removes every class, stores nothing *)
+Definition stores3 (n : nat) (o : sop3) (s : fset) (k : K) : Prop :=
+  match o with S3Base o => stores2 ck cq n o s k | S3DrainForget _ => False end.
+Definition removes3 (n : nat) (o : sop3) (s : fset) (c : N) : Prop :=
+  match o with S3Base o => removes2 ck cq n o s c | S3DrainForget _ => True end.
+
+Lemma fnext3_fnd n o s : fnd ck s -> fnd ck (fnext3 n o s).
+Proof. intros Hn. destruct o; cbn [fnext3]; [apply fnext2_fnd; exact Hn | constructor]. Qed.
+
+Lemma fnext3_mem n o s c k :
+  fnd ck s ->
+  (f_mem ck (fnext3 n o s) c = Some k <->
+   (stores3 n o s k /\ ck k = c) \/ (f_mem ck s c = Some k /\ ~ removes3 n o s c)).
+Proof.
+  intros Hn. destruct o as [o|take]; cbn [fnext3 stores3 removes3]; [apply fnext2_mem; exact Hn|].
+  split; [discriminate|]. intros [[[] _]|[_ H]]. exfalso. exact (H I).
+Qed.
+
+Fixpoint noremove3 (n : nat) (c : N) (ops : list sop3) (s : fset) : Prop :=
+  match ops with
+  | [] => True
+  | o :: t => ~ removes3 n o s c /\ noremove3 n c t (fnext3 n o s)
+  end.
+
+Theorem fsfinal3_mem n ops : forall s c k,
+  fnd ck s ->
+  (f_mem ck (fsfinal3 n ops s) c = Some k <->
+   (f_mem ck s c = Some k /\ noremove3 n c ops s) \/
+   (exists pre o post, ops = pre ++ o :: post /\
+      stores3 n o (fsfinal3 n pre s) k /\ ck k = c /\
+      noremove3 n c post (fnext3 n o (fsfinal3 n pre s)))).
+Proof.
+  induction ops as [|o t IH]; intros s c k Hn.
+  - cbn [fsfinal3 noremove3]. split; [intros H; left; auto|].
+    intros [[H _]|(pre & o & post & Hnil & _)]; [exact H|]. destruct pre; discriminate Hnil.
+  - cbn [fsfinal3]. rewrite (IH (fnext3 n o s) c k (fnext3_fnd n o s Hn)).
+    rewrite (fnext3_mem n o s c k Hn). cbn [noremove3]. split.
+    + intros [[[[Hst Hc]|[Hm Hno]] Hrest]|(pre & o' & post & -> & Hst & Hc & Hrest)].
+      * right. exists [], o, t. cbn [app fsfinal3]. auto.
+      * left. auto.
+      * right. exists (o :: pre), o', post. cbn [app fsfinal3]. auto.
+    + intros [(Hm & Hno & Hrest)|(pre & o' & post & Hops & Hst & Hc & Hrest)].
+      * left. auto.
+      * destruct pre as [|o1 pre'].
+        -- cbn [app] in Hops. injection Hops as -> ->. cbn [fsfinal3] in Hst, Hrest. left. auto.
+        -- cbn [app] in Hops. injection Hops as <- ->. cbn [fsfinal3] in Hst, Hrest.
+           right. exists pre', o', post. auto.
+Qed.
+
+Theorem srun3_membership n ops t lg :
+  exists wf, smfinal3 ops {| cb := t; log := lg; self := new_map n |} = Some wf /\
+             cap (self wf) = n /\
+             forall c k,
+               option_map fst (lookup ck (elems (self wf)) c) = Some k <->
+               exists pre o post, ops = pre ++ o :: post /\
+                  stores3 n o (fsfinal3 n pre []) k /\ ck k = c /\
+                  noremove3 n c post (fnext3 n o (fsfinal3 n pre [])).
+Proof.
+  destruct (srun3_refines_new n ops t lg) as (wf & Hf & _ & Ha & Hc).
+  exists wf. split; [exact Hf|]. split; [exact Hc|]. intros c k.
+  rewrite (sabs_mem_c ck (self wf) _ c Ha).
+  rewrite (fsfinal3_mem n ops [] c k (NoDup_nil _)). split; [|intros H; right; exact H].
+  intros [[H _]|H]; [discriminate H | exact H].
+Qed.
+
+(* ================================================================== *)
+(* C07.4  the membership characterisation in terms of the MODEL's own   *)
+(* results: the result the model returned for the i-th call IS the      *)
+(* ideal set's result that [stores] / [removes] speak about.            *)
+(* ================================================================== *)
+Lemma fsruns2_nth n o post : forall pre s rs,
+  fsruns2 ck cq n (pre ++ S2Base o :: post) s rs ->
+  nth_error rs (length pre) = Some (R2Base (fst (fstep ck cq n o (fsfinal2 ck cq n pre s)))).
+Proof.
+  induction pre as [|o1 pre IH]; intros s rs H; cbn [app] in H; inversion H; subst; cbn [length nth_error fsfinal2].
+  - match goal with Hs : fstep2 _ _ _ (S2Base _) _ _ |- _ => cbn [fstep2] in Hs; subst end. reflexivity.
+  - apply IH. assumption.
+Qed.
+
+(* [stored_by n o r s k]: the call o, for which THE MODEL RETURNED r, put k
+   into the set.  insert k: the model returned true; replace k: the model did
+   not panic; extend: decided per item on the ideal set (the call's single
+   result () / panic does not say which items were new). *)
+Definition stored_by (n : nat) (o : sop2) (r : sres2) (s : fset) (k : K) : Prop :=
+  match o with
+  | S2Base (SoInsert k') => k' = k /\ r = R2Base (SBool true)
+  | S2Base (SoReplace k') => k' = k /\ r <> R2Base SPanic
+  | S2Base (SoExtend items) => stores ck cq n (SoExtend items) s k
+  | _ => False
+  end.
+
+Theorem srun2_results_membership n ops t lg :
+  let w0 := {| cb := t; log := lg; self := new_map n |} in
+  exists wf, smfinal2 E debug ops w0 = Some wf /\ cap (self wf) = n /\
+    (* the model's result for every call is the ideal set's *)
+    (forall pre o post, ops = pre ++ S2Base o :: post ->
+       nth_error (smrun2 E debug ops w0) (length pre)
+       = Some (R2Base (fst (fstep ck cq n o (fsfinal2 ck cq n pre []))))) /\
+    (* membership in the final container, from the model's results *)
+    (forall c k,
+       option_map fst (lookup ck (elems (self wf)) c) = Some k <->
+       exists pre o post r, ops = pre ++ o :: post /\
+          nth_error (smrun2 E debug ops w0) (length pre) = Some r /\
+          stored_by n o r (fsfinal2 ck cq n pre []) k /\ ck k = c /\
+          noremove ck cq n c post (fnext2 ck cq n o (fsfinal2 ck cq n pre []))).
+Proof.
+  intros w0. destruct (srun2_refines_new E debug ck cq HL n ops t lg) as (wf & Hf & Hr & Ha & Hc).
+  fold w0 in Hf, Hr. exists wf. split; [exact Hf|]. split; [exact Hc|].
+  assert (Hnth : forall pre o post, ops = pre ++ S2Base o :: post ->
+            nth_error (smrun2 E debug ops w0) (length pre)
+            = Some (R2Base (fst (fstep ck cq n o (fsfinal2 ck cq n pre []))))).
+  { intros pre o post Hops. rewrite Hops in Hr |- *. exact (fsruns2_nth n o post pre [] _ Hr). }
+  split; [exact Hnth|]. intros c k.
+  rewrite (sabs_mem_c ck (self wf) _ c Ha). rewrite fsfinal2_mem_new. split.
+  - intros (pre & o & post & Hops & Hst & Hck & Hno).
+    destruct o as [o|take]; [|destruct Hst]. cbn [stores2] in Hst.
+    exists pre, (S2Base o), post, (R2Base (fst (fstep ck cq n o (fsfinal2 ck cq n pre [])))).
+    split; [exact Hops|]. split; [exact (Hnth pre o post Hops)|]. split; [|split; assumption].
+    destruct o as [k'|k'|q|q|q|q|g| |items]; cbn [stores] in Hst; cbn [stored_by];
+      try (exfalso; exact Hst).
+    + destruct Hst as [-> Hres]. rewrite Hres. auto.
+    + destruct Hst as [-> Hres]. split; [reflexivity|]. intros Heq. injection Heq as Heq. exact (Hres Heq).
+    + cbn [stores]. exact Hst.
+  - intros (pre & o & post & r & Hops & Hr' & Hst & Hck & Hno).
+    exists pre, o, post. split; [exact Hops|]. split; [|split; assumption].
+    destruct o as [o|take]; [|destruct Hst]. cbn [stores2].
+    rewrite (Hnth pre o post Hops) in Hr'. injection Hr' as <-.
+    destruct o as [k'|k'|q|q|q|q|g| |items]; cbn [stored_by] in Hst; cbn [stores];
+      try (exfalso; exact Hst).
+    + destruct Hst as [-> Hres]. injection Hres as Hres. auto.
+    + destruct Hst as [-> Hres]. split; [reflexivity|]. intros Heq. apply Hres. rewrite Heq. reflexivity.
+    + exact Hst.
+Qed.
+
+End Round2.
+
+(* ================================================================== *)
+(* C08.1  what `&a - &b` computes INCLUDING the construction of the     *)
+(* result set: Exec's SSub arm runs set_sub on a fresh                   *)
+(* `new_map (cap a)` swapped in for self (the result is a local of the   *)
+(* caller), renders it, and destroys it.                                 *)
+(* ================================================================== *)
+Section SubExec.
+Context {Q : Type} (E : env key unit Q cstate) (debug : bool).
+Context (ck : key -> N) (cq : Q -> N) (HL : Lawful E ck cq).
+Context (HCK : forall s k, exists k' s', cloneK E s k = (Some k', s') /\ ck k' = ck k).
+Notation world := (world key unit cstate). Notation smap := (map key unit). Notation kv := (key * unit)%type.
+
+(* no hypothesis on the surrounding world: the result set is created here,
+   with the LEFT operand's capacity *)
+Theorem swap_set_sub_lawful (a b : smap) (w : world) :
+  WF a -> WF b -> Uniq ck (Spec.elems a) ->
+  wp (swap_self (new_map (cap a)) (set_sub E debug a b))
+     (fun r w' =>
+        WF (snd r) /\ cap (snd r) = cap a /\
+        List.map (fun p : kv => ck (fst p)) (Spec.elems (snd r))
+        = List.map (fun p : kv => ck (fst p)) (filter (fun p => negb (mem ck b (fst p))) (Spec.elems a)) /\
+        NoDup (List.map (fun p : kv => ck (fst p)) (Spec.elems (snd r))) /\
+        (forall c, In c (List.map (fun p : kv => ck (fst p)) (Spec.elems (snd r)))
+                   <-> In c (List.map (fun p : kv => ck (fst p)) (Spec.elems a))
+                       /\ ~ In c (List.map (fun p : kv => ck (fst p)) (Spec.elems b))) /\
+        self w' = self w /\
+        log w' = log w ++ flat_map (fun p : kv => List.map EvCloneK (idK E (fst p)))
+                                   (filter (fun p => negb (mem ck b (fst p))) (Spec.elems a)))
+     (fun _ => False) w.
+Proof.
+  intros Ha Hb Hua. apply wp_swap_self.
+  eapply wp_mono;
+    [apply (set_sub_lawful_uniq E debug ck cq HL HCK a b (with_self w (new_map (cap a))) Ha Hb Hua);
+     cbn [with_self self]; [apply WF_new | reflexivity | apply cap_new] | | auto]; cbn beta.
+  intros u w' (H1 & H2 & H3 & H4 & H5 & H6). cbn [snd with_self self log] in *. auto 10.
+Qed.
+
+(* the whole SSub session body *)
+Lemma ssub_session_lawful (a b : smap) (w : world) :
+  WF a -> WF b -> Uniq ck (Spec.elems a) ->
+  wp ('(_, res) <- swap_self (new_map (cap a)) (set_sub E debug a b) ;;
+      let body := nn (len res) :: flat_map r_spair (Exec.elems res) in
+      '(_, _) <- swap_self res (drop_map E) ;;
+      ret body)
+     (fun out w' =>
+        exists res : smap,
+          out = nn (len res) :: flat_map r_spair (Spec.elems res) /\
+          WF res /\ cap res = cap a /\
+          List.map (fun p : kv => ck (fst p)) (Spec.elems res)
+          = List.map (fun p : kv => ck (fst p)) (filter (fun p => negb (mem ck b (fst p))) (Spec.elems a)) /\
+          NoDup (List.map (fun p : kv => ck (fst p)) (Spec.elems res)) /\
+          self w' = self w /\
+          log w' = log w
+                   ++ flat_map (fun p : kv => List.map EvCloneK (idK E (fst p)))
+                               (filter (fun p => negb (mem ck b (fst p))) (Spec.elems a))
+                   ++ flat_map (fun p : kv => ev_drops (idK E (fst p) ++ idV E (snd p))) (Spec.elems res))
+     (fun _ => False) w.
+Proof.
+  intros Ha Hb Hua. apply wp_bind.
+  eapply wp_mono; [apply swap_set_sub_lawful; assumption | | auto]; cbn beta.
+  intros [u res] w1 (Hw1 & Hc1 & Hcl & Hnd & _ & Hs1 & Hl1). cbn [snd] in *. cbv zeta.
+  apply wp_bind. apply wp_swap_self.
+  eapply wp_mono; [apply (drop_map_lawful E ck cq HL (with_self w1 res)); cbn [with_self self]; exact Hw1 | | auto];
+    cbn beta.
+  intros [] w2 Hlg. unfold logged in Hlg. cbn [with_self self log] in *. apply wp_ret. cbn [with_self self log].
+  exists res. rewrite exec_elems_eq. split; [reflexivity|]. split; [exact Hw1|]. split; [exact Hc1|].
+  split; [exact Hcl|]. split; [exact Hnd|]. split; [exact Hs1|].
+  rewrite Hlg, Hl1, <- app_assoc. reflexivity.
+Qed.
+
+End SubExec.
+
+Lemma wp_nopanic_ok {K V T A} (c : M K V T A) (Qn : A -> Base.world K V T -> Prop) w :
+  wp c Qn (fun _ => False) w -> exists a w', c w = Ok a w' /\ Qn a w'.
+Proof. unfold wp. destruct (c w) as [a w'|w'|]; [eauto | intros [] | intros []]. Qed.
+
+(* Exec.step (SSub r r') under an honest script: the observation is
+   1 (returned) :: len res :: the elements of res (id, class) ++ the register
+   r as it was ++ the events; res is the difference (classes of a not in b, in
+   a's order, no class twice) in a set of a's capacity; the events are one
+   clone per element of the difference and one drop per element of the
+   temporary result; all four registers are unchanged. *)
+Theorem step_ssub debug sc r r' x :
+  honest sc -> WFx x -> Uniq kcls (Spec.elems (get_s r x)) ->
+  let a := get_s r x in let b := get_s r' x in
+  exists (res : map key unit) (lg : list event),
+    fst (step debug sc (SSub r r') x)
+    = [1%N] ++ (nn (len res) :: flat_map r_spair (Spec.elems res)) ++ post_s a ++ events lg /\
+    WF res /\ cap res = cap a /\
+    List.map (fun p : key * unit => kcls (fst p)) (Spec.elems res)
+    = List.map (fun p : key * unit => kcls (fst p))
+               (filter (fun p => negb (mem kcls b (fst p))) (Spec.elems a)) /\
+    NoDup (List.map (fun p : key * unit => kcls (fst p)) (Spec.elems res)) /\
+    lg = List.map (fun p : key * unit => EvCloneK (kid (fst p)))
+                  (filter (fun p => negb (mem kcls b (fst p))) (Spec.elems a))
+         ++ List.map (fun p : key * unit => EvDrop (kid (fst p))) (Spec.elems res) /\
+    regs (snd (step debug sc (SSub r r') x)) = regs x /\
+    xdead (snd (step debug sc (SSub r r') x)) = false.
+Proof.
+  intros Hh Hx Hua a b. assert (Hd : xdead x = false) by apply Hx.
+  pose proof (ssub_session_lawful (env_set sc) debug kcls qcls (env_set_lawful sc Hh) (env_set_cloneK sc Hh)
+                a b {| cb := xcb x; log := []; self := get_s r x |}
+                (WFx_get_s r x Hx) (WFx_get_s r' x Hx) Hua) as H.
+  destruct (wp_nopanic_ok _ _ _ H) as (out & w' & Hrun & HQ). clear H.
+  unfold step. rewrite Hd. unfold run_s.
+  match goal with |- context [finish _ _ _ ?rs] =>
+    replace rs with (@Ok key unit cstate (list N) out w') by (symmetry; exact Hrun) end.
+  destruct HQ as (res & -> & Hw & Hc & Hcl & Hnd & Hs & Hlg). cbn [self log app] in Hs, Hlg.
+  exists res, (log w'). cbn [finish fst snd]. rewrite Hs.
+  split; [reflexivity|]. split; [exact Hw|]. split; [exact Hc|]. split; [exact Hcl|]. split; [exact Hnd|].
+  split.
+  - rewrite Hlg. cbn [env_set idK idV]. unfold ev_drops. cbn [List.map app].
+    assert (Hfm : forall (X Y : Type) (g : X -> Y) (l : list X), flat_map (fun p => [g p]) l = List.map g l)
+      by (intros X Y g l; induction l as [|h t IH]; cbn [flat_map List.map app]; [|rewrite IH]; reflexivity).
+    rewrite !Hfm. reflexivity.
+  - unfold put_s, get_s, regs. destruct (N.eqb r 2); cbn [xm0 xm1 xs0 xs1 xdead]; split; (reflexivity || exact Hd).
+Qed.
+
+(* ================================================================== *)
+(* C08.3  difference_ref.  Exec's set-algebra session has kinds          *)
+(* 0 = difference, 1 = intersection, 2 = union, 3 = symmetric_difference *)
+(* and 4 (any other number) = difference_ref.  For kind 4 the harness    *)
+(* builds Set<&T,N> / Set<&T,M> by copying the operands slot by slot     *)
+(* (same slots, same order, == on &T is == on T) and calls               *)
+(* difference_ref; the model represents a reference-set by the set it    *)
+(* refers to, so kind 4 runs LITERALLY the computation of kind 0:        *)
+(* ================================================================== *)
+Section Kind4.
+Context (sc : script).
+
+Definition other_kind (kind : N) : Prop := kind <> 1%N /\ kind <> 2%N /\ kind <> 3%N.
+
+Lemma other_kind_eqb kind : other_kind kind -> N.eqb kind 1 = false /\ N.eqb kind 2 = false /\ N.eqb kind 3 = false.
+Proof. intros (H1 & H2 & H3). repeat split; apply N.eqb_neq; assumption. Qed.
+
+Lemma alg_init_ref kind a b : other_kind kind -> alg_init kind a b = alg_init 0 a b.
+Proof. intros H. destruct (other_kind_eqb kind H) as (H1 & H2 & H3). unfold alg_init. rewrite H2, H3. reflexivity. Qed.
+
+Lemma alg_next_ref kind a b st : other_kind kind -> alg_next sc kind a b st = alg_next sc 0 a b st.
+Proof.
+  intros H. destruct (other_kind_eqb kind H) as (H1 & H2 & H3). unfold alg_next.
+  destruct st; [rewrite H1 | rewrite H2]; reflexivity.
+Qed.
+
+Lemma alg_hint_ref kind a b st : other_kind kind -> alg_hint kind a b st = alg_hint 0 a b st.
+Proof.
+  intros H. destruct (other_kind_eqb kind H) as (H1 & H2 & H3). unfold alg_hint.
+  destruct st; [rewrite H1 | rewrite H2]; reflexivity.
+Qed.
+
+Lemma alg_fold_ref kind a b st : other_kind kind -> alg_fold sc kind a b st = alg_fold sc 0 a b st.
+Proof.
+  intros H. destruct (other_kind_eqb kind H) as (H1 & H2 & H3). unfold alg_fold.
+  destruct st; [rewrite H1 | rewrite H2]; reflexivity.
+Qed.
+
+Lemma alg_steps_ref kind a b n : other_kind kind ->
+  forall st acc w, alg_steps sc kind a b n st acc w = alg_steps sc 0 a b n st acc w.
+Proof.
+  intros H. induction n as [|n IH]; intros st acc w; cbn [alg_steps]; [reflexivity|].
+  rewrite (alg_hint_ref kind a b st H), (alg_next_ref kind a b st H).
+  destruct (alg_hint 0 a b st) as [lo hi]. unfold bind.
+  destruct (alg_next sc 0 a b st w) as [[o st'] w1|w1|]; try reflexivity.
+  destruct o as [x0|]; [|apply IH].
+  destruct (r_side a b x0 w1) as [h w2|w2|]; try reflexivity. apply IH.
+Qed.
+
+(* difference_ref IS difference, as a computation, for every script, every
+   pair of operands, every number of steps and every consumption mode *)
+Theorem alg_session_difference_ref kind a b steps mode w :
+  other_kind kind ->
+  alg_session sc kind a b steps mode w = alg_session sc 0 a b steps mode w.
+Proof.
+  intros H. unfold alg_session. rewrite (alg_init_ref kind a b H). unfold bind.
+  destruct (alg_init 0 a b w) as [st w1|w1|]; try reflexivity.
+  rewrite (alg_steps_ref kind a b steps H).
+  destruct (alg_steps sc 0 a b steps st [] w1) as [[acc st'] w2|w2|]; try reflexivity.
+  rewrite (alg_hint_ref kind a b st' H), (alg_fold_ref kind a b st' H). reflexivity.
+Qed.
+
+Corollary step_difference_ref debug kind r r' steps mode x :
+  other_kind kind ->
+  step debug sc (SAlgebra kind r r' steps mode) x = step debug sc (SAlgebra 0 r r' steps mode) x.
+Proof.
+  intros H. unfold step. destruct (xdead x); [reflexivity|]. unfold run_s.
+  rewrite (alg_session_difference_ref kind _ _ steps mode _ H). reflexivity.
+Qed.
+
+End Kind4.
+
+(* unfolding lemmas for the round-2 vocabulary *)
+Section Unfold3.
+Context {K Q T : Type} (E : env K unit Q T) (debug : bool) (ck : K -> N) (cq : Q -> N).
+
+Lemma sop3_unfold n (s : @fset K) (r : @sres2 K) (k : K) (c : N) :
+  (forall o, sstep3 E debug (S3Base o) = sstep2 E debug o) /\
+  (forall take, sstep3 E debug (S3DrainForget take) =
+                (cu <- drain ;; x <- drain_run take cu ;; ret (R2Drained (List.map fst (fst x))))) /\
+  (forall o, fstep3 ck cq n (S3Base o) s r <-> fstep2 ck cq n o s r) /\
+  (forall take, fstep3 ck cq n (S3DrainForget take) s r <->
+                exists p, Permutation p s /\ r = R2Drained (firstn take p)) /\
+  (forall o, fnext3 ck cq n (S3Base o) s = fnext2 ck cq n o s) /\
+  (forall take, fnext3 ck cq n (@S3DrainForget K Q take) s = []) /\
+  (forall o, stores3 ck cq n (S3Base o) s k <-> stores2 ck cq n o s k) /\
+  (forall take, ~ stores3 ck cq n (S3DrainForget take) s k) /\
+  (forall o, removes3 ck cq n (S3Base o) s c <-> removes2 ck cq n o s c) /\
+  (forall take, removes3 ck cq n (S3DrainForget take) s c <-> True) /\
+  (noremove3 ck cq n c [] s <-> True) /\
+  (forall o t, noremove3 ck cq n c (o :: t) s <->
+               ~ removes3 ck cq n o s c /\ noremove3 ck cq n c t (fnext3 ck cq n o s)).
+Proof. cbn [sstep3 fstep3 fnext3 stores3 removes3 noremove3]. repeat split; intros; tauto. Qed.
+
+Lemma stored_by_unfold n (r : @sres2 K) (s : @fset K) (k : K) :
+  (forall k', stored_by ck cq n (S2Base (SoInsert k')) r s k <-> k' = k /\ r = R2Base (SBool true)) /\
+  (forall k', stored_by ck cq n (S2Base (SoReplace k')) r s k <-> k' = k /\ r <> R2Base SPanic) /\
+  (forall items, stored_by ck cq n (S2Base (SoExtend items)) r s k <-> stores ck cq n (SoExtend items) s k) /\
+  (forall q : Q, ~ stored_by ck cq n (S2Base (SoContains q)) r s k) /\
+  (forall q : Q, ~ stored_by ck cq n (S2Base (SoGet q)) r s k) /\
+  (forall q : Q, ~ stored_by ck cq n (S2Base (SoRemove q)) r s k) /\
+  (forall q : Q, ~ stored_by ck cq n (S2Base (SoTake q)) r s k) /\
+  (forall g, ~ stored_by ck cq n (S2Base (SoRetain g)) r s k) /\
+  ~ stored_by ck cq n (S2Base SoClear) r s k /\
+  (forall take, ~ stored_by ck cq n (S2Drain take) r s k).
+Proof. cbn [stored_by]. repeat split; intros; tauto. Qed.
+
+End Unfold3.
